@@ -326,6 +326,11 @@ def run_case(c, d):
         return
     a = abs(cc)
     tol = 1e-6 if name in ('ma', 'arma_estimate', 'parma', 'pma') else 1e-9 if name in FOURIER else 1e-8
+    if name in ('arma_estimate', 'parma'):
+        ar0 = base['outputs'].get('a', base['outputs'].get('ar', (None, 0)))[0]
+        if E.ill_conditioned_arma(ar0, d['p']['P']):
+            c.discard('arma:numerically-singular-fit')
+            return
     for key, (v0, pw) in base['outputs'].items():
         if key not in scaled['outputs']:
             c.fail('scale:%s' % key, {'why': 'output missing in the scaled run'}, feats)
@@ -333,6 +338,10 @@ def run_case(c, d):
         v1 = scaled['outputs'][key][0]
         v0a, v1a = np.asarray(v0), np.asarray(v1)
         factor = cc if pw == 'lin' else a ** pw
+        if key == 'psd' and name in ('music', 'ev', 'pmusic', 'pev'):
+            # the pseudo-spectrum has poles: compare the (bounded) noise-subspace projection 1/psd instead
+            with np.errstate(divide='ignore'):
+                v0a, v1a, factor = 1.0 / v0a, 1.0 / v1a, 1.0 / factor
         ref = v0a * factor
         f2 = dict(feats, output=key)
         charact = None
@@ -344,6 +353,7 @@ def run_case(c, d):
         sc = float(np.max(np.abs(ref))) if ref.size else 1.0
         if pw == 0:
             sc = max(sc, 1.0)     # dimensionless outputs (coefficients, weights, decisions): absolute floor
-        c.compare('scale:%s' % key, v1a, ref, tol, f2, scale=sc or 1.0,
+        tol_k = E.cond_tol(name, ref, tol) if (key == 'psd' and d['form'] == 'class') else tol
+        c.compare('scale:%s' % key, v1a, ref, tol_k, f2, scale=sc or 1.0,
                   detail={'c': d['c'], 'power': pw, 'N': d['N'], 'params': d['p']}, charact=charact,
                   pointwise=1e-6 if key == 'psd' else None)
